@@ -27,7 +27,10 @@ RULE = ("k-medoids (cold, from centre indices, from (trajectory,frame) pairs, fr
         "states of NumPy's global generator must agree with each other, with the seeded run and with one-sweep calls composed by hand. "
         "65537..70000 frames on a line (k = 2, explicit proposals, held as a recipe; oracle only, exact integer costs before / after): a far "
         "group of frames at the end / start / middle of the array decides the accept test. Estimator attributes are read after every fit "
-        "of a history and compared with that fit's result_.")
+        "of a history and compared with that fit's result_. k-hybrid with a user callable that does not obey the triangle inequality "
+        "(squared euclidean distances of integer points, arbitrary symmetric integer tables; 6..13 frames, >= 3 centres, 0..3 sweeps), three "
+        "in four built so that the bound of the triangle-inequality shortcut is wrong for some frame and a k-centers run relying on it costs "
+        "more: the hybrid result is compared with kcenters() called with the same arguments.")
 SHARD = 60
 
 
@@ -64,6 +67,12 @@ def generate(rng, tier):
     wheres = ["end", rng.choice(["start", "middle", "end"])] if tier == "quick" else ["end", "start", "middle"] * 4
     for w in wheres:
         cases.append(cc.gen_big_kmedoids(rng, w))
+    # k-hybrid with a callable that does not obey the triangle inequality (squared euclidean distances, arbitrary symmetric
+    # tables), mostly built so that a k-centers stage relying on the triangle-inequality bound would end worse than kcenters()
+    for i in range(24 if tier == "quick" else 240):
+        c = cc.gen_hybrid_nonmetric(rng, mislead=(i % 4 != 3))
+        c["extras"] = True
+        cases.append(c)
     return cases
 
 
@@ -159,7 +168,7 @@ def tags(c, out):
     return t
 
 
-ESSENTIAL_TAGS = ["kmedoids-more-than-65536-frames-deciding-group-at-end", "explicit-proposals-several-sweeps-no-random-state",
+ESSENTIAL_TAGS = ["hybrid-non-metric-callable", "hybrid-non-metric-callable-shortcut-bound-wrong", "kmedoids-more-than-65536-frames-deciding-group-at-end", "explicit-proposals-several-sweeps-no-random-state",
                   "estimator-read-attrs-then-refit", "estimator-read-fit_predict-then-refit", "estimator-read-predict-then-refit", "init-estimator", "tiny-scale", "tiny-scale-start-without-centres", "init-list", "init-result", "non-contiguous-data", "buffer-reusing-metric", "estimator-history-kmedoids",
                   "estimator-history-hybrid", "hybrid-non-frame-init", "multi-scale-data", "kmedoids", "hybrid", "start-cold", "start-centers", "start-state", "start-pairs", "explicit-proposals",
                   "random-proposals", "some-sweep-lowered-cost", "some-sweep-changed-nothing", "estimator-form"]
